@@ -37,6 +37,12 @@ CHECKS = {
  "C09": dict(cat="exploration", tech="differential property-based testing: generated structured programs rendered as oblivious source and as a native-Python twin",
    text="Generated programs with nested if/elif/else, bounded while with break conditions, for over _range with a secret bound, and lazy selections are rendered to source text in the documented one-statement-per-line idiom and executed on the recording backend; final variables are compared with a native-control-flow twin, the constraints are evaluated, guard state and block stack are checked, and the canonical trace is compared with that of a second input vector taking other branches. Exploration over generated programs.",
    note=TB + "; the native twin rendered from the same AST is the reference.", ref="4 (C09)"),
+ "C08": dict(cat="exploration", tech="stateful (rule-based state machine) property testing with a model stack of guard conditions",
+   text="A Hypothesis rule-based machine drives add_guard/restore_guard, top-level ignore_errors, generated trees of nested guarded()/lazy if_then_else calls with sentinel exceptions raised and caught at chosen levels, if/elif/else and while block contexts, and invalid entries; after every step the three module globals are compared with a model (conjunction of active conditions, suppression iff a condition is 0, meaning of constants) and with the identical objects saved before each region. Exploration over generated histories.",
+   note=TB + "; model of the documented guard semantics.", ref="4 (C08)"),
+ "C17": dict(cat="exploration", tech="property-based testing of generated argument/result structures against the recorder's ordered public-variable list",
+   text="Sequences of 1-4 @snark calls with nested list/tuple/dict arguments of int/float/bool/pass-through leaves and generated bodies returning nested mixed structures: the public variables created per call must be exactly the numeric argument leaves then the secret results, in traversal order, each output wire uniquely pinned by the constraints (single-wire search), the returned structure equal to the undecorated body's, and keyword calls refused without a trace. Exploration.",
+   note=TB + "; bodies limited to operations on which Python floats and fixed point agree exactly.", ref="4 (C17)"),
 }
 PENDING = {}
 
